@@ -30,6 +30,7 @@ type prog struct {
 	Batch   int
 	Senders int
 	NKeys   int
+	KeyOff  int  // the subject keys are NKeys consecutive members of the adversarial pool (cyclically) from this offset on
 	NewID   bool // restore into an operator with a new id (replacement worker) or the same id
 	Ops     []op
 }
@@ -52,6 +53,7 @@ func gen(rt *rapid.T) prog {
 		Batch:   rapid.IntRange(1, 6).Draw(rt, "batch"),
 		Senders: rapid.IntRange(1, 2).Draw(rt, "senders"),
 		NKeys:   rapid.IntRange(2, 10).Draw(rt, "nkeys"),
+		KeyOff:  rapid.SampledFrom([]int{0, 0, 5, 7, 9, 11, 12, 13, 16, 18}).Draw(rt, "keyoff"),
 		NewID:   rapid.Bool().Draw(rt, "newid"),
 	}
 	n := rapid.IntRange(3, 60).Draw(rt, "n")
@@ -81,7 +83,10 @@ func exec(p prog, c *hx.Case) error {
 	w := opx.NewWorld(p.Tune)
 	defer w.Close()
 	senders := []string{"sr0", "sr1"}[:p.Senders]
-	keys := hx.AdversarialKeys[:p.NKeys]
+	keys := make([][]byte, p.NKeys)
+	for i := range keys {
+		keys[i] = hx.AdversarialKeys[(p.KeyOff+i)%len(hx.AdversarialKeys)]
+	}
 	bp := batching.EventBatcherParams{MaxSize: p.Batch}
 	gen := 0
 	opID := "op-0"
@@ -185,5 +190,5 @@ func exec(p prog, c *hx.Case) error {
 }
 
 func TestPropKeyedState(t *testing.T) {
-	hx.Run(t, hx.Spec{Prop: "C03", Persist: true, Rule: "one real Operator (1-2 upstreams, event batch size 1..6, key-group count 1..2048) whose DKV is tuned to a 96..2048 B memtable so that flush and compaction run underneath; 3..60 steps of keyed events carrying scripted puts/deletes over 9 adversarial namespaces (empty, prefix-related, 255 bytes, bytes imitating length prefixes) and 10 entry keys on 2..10 subject keys in prefix relation, batch time-out flushes, checkpoints, restores into a fresh operator (same or new id) and probes; on EVERY handler invocation each supplied KeyState must equal the shadow map built from the mutations returned so far; non-trivial = >=1 DKV flush swap and >=1 overwrite/delete of an existing entry"}, gen, exec)
+	hx.Run(t, hx.Spec{Prop: "C03", Persist: true, Rule: "one real Operator (1-2 upstreams, event batch size 1..6, key-group count 1..2048) whose DKV is tuned to a 96..2048 B memtable so that flush and compaction run underneath; 3..60 steps of keyed events carrying scripted puts/deletes over 9 adversarial namespaces (empty, prefix-related, 255 bytes, bytes imitating length prefixes) and 10 entry keys on 2..10 subject keys taken from anywhere in the adversarial pool (prefix relation, NUL and 0xff bytes, single bytes 0x00/0x01/0xfe/0xff), batch time-out flushes, checkpoints, restores into a fresh operator (same or new id) and probes; on EVERY handler invocation each supplied KeyState must equal the shadow map built from the mutations returned so far; non-trivial = >=1 DKV flush swap and >=1 overwrite/delete of an existing entry"}, gen, exec)
 }
